@@ -49,6 +49,12 @@ def run(ctx):
         extreme = [b for b, _, _ in rpucases.gen_structured(rng.fork("extreme"), n)]
     finally:
         specgen.EXTREME = 0.0
+    # containers carrying a block of a level that does not exist (0, 7, 12, 13, 100, 253): the parser must reject
+    specgen.UNKNOWN_LEVEL = 0.5
+    try:
+        extreme += [b for b, _, _ in rpucases.gen_structured(rng.fork("unknown-level"), n // 4)]
+    finally:
+        specgen.UNKNOWN_LEVEL = 0.0
     inputs = []   # (kind, prefix-less rpu bytes)
     for b in valid:
         inputs.append(("valid", b))
